@@ -159,7 +159,10 @@ COMBO_PRE = [['data/d:link'], ['data/d:copy'], ['data/ld:link']]
 # ------------------------------------------------------------------------------------------------------ manifests
 # 'conf' is the folder into which deployment itself writes the workflow definition after the manifest was applied
 # 'data' is the folder whose files experimentFromPackage(data=[...]) replaces after the manifest was applied
-KEYS = ['a', 'a/b', '../x', 'a/../../x', './a', ABS + '/mk', 'conf', 'data']
+# '@INSTNAME@' stands for the name of the new instance directory: '../@INSTNAME@x' is a sibling whose name merely
+# starts with the instance directory's name (textual-prefix collision, like '@WD@x' for archives)
+INSTNAME = '@INSTNAME@'
+KEYS = ['a', 'a/b', '../x', 'a/../../x', './a', ABS + '/mk', 'conf', 'data', '../' + INSTNAME + 'x']
 # every manifest source folder contains symbolic links with these names pointing at victim files outside the
 # instance: the names of the files that deployment / instance creation writes into conf/ and data/ afterwards
 LATER_WRITTEN = ['flowir_package.yaml', 'dsl.yaml', 'flowir_instance.yaml', 'manifest.yaml', 'big.csv']
